@@ -105,6 +105,92 @@ theorem allStarts_cover (p0 : XP ℝ) (d3 : ℝ) (m : Nat) (hm : 1 ≤ m) (hd : 
             (a.x - p0.x) - (a.y - p0.y) - d3 * (j : ℝ) := by ring
         rw [e]; exact hjv
 
+/-! ## the number of start points of `AllInt0` -/
+
+theorem grid_length (m : Nat) : (grid m).length = m := by simp [grid]
+
+theorem grid_nodup (m : Nat) : (grid m).Nodup := by
+  unfold grid
+  apply List.Nodup.map _ List.nodup_range
+  intro a b h; simp only at h; omega
+
+/-- number of entries of `grid m` equal to 0: one iff `m` is odd -/
+theorem grid_count_zero (m : Nat) : (grid m).count 0 = m % 2 := by
+  have hn := grid_nodup m
+  by_cases h : (0 : Int) ∈ grid m
+  · rw [List.count_eq_one_of_mem hn h]
+    obtain ⟨a, _, ha⟩ := mem_grid.mp h
+    omega
+  · rw [List.count_eq_zero_of_not_mem h]
+    by_contra hc
+    have hodd : m % 2 = 1 := by omega
+    exact h (mem_grid.mpr ⟨(m - 1) / 2, by omega, by omega⟩)
+
+theorem row_length (p0 : XP ℝ) (d3 : ℝ) (l : List Int) (i : Int) :
+    (l.filterMap fun j => if i == 0 && j == 0 then none
+      else some (XP.add p0 (mk0 (d3 * ofC (i + j) / two) (d3 * ofC (i - j) / two)))).length
+      = l.length - (if i = 0 then l.count 0 else 0) := by
+  induction l with
+  | nil => simp
+  | cons j t ih =>
+    by_cases hi : i = 0
+    · subst hi
+      by_cases hj : j = 0
+      · subst hj
+        simp only [List.filterMap_cons, beq_self_eq_true, Bool.and_self, if_true, List.length_cons, List.count_cons_self] at ih ⊢
+        rw [ih]
+        have := List.count_le_length (a := (0:Int)) (l := t)
+        omega
+      · have hj' : (j == 0) = false := by simpa using hj
+        simp only [List.filterMap_cons, beq_self_eq_true, hj', Bool.and_false, Bool.false_eq_true, if_false, List.length_cons, if_true] at ih ⊢
+        rw [ih, List.count_cons_of_ne hj]
+        have := List.count_le_length (a := (0:Int)) (l := t)
+        omega
+    · have hi' : (i == 0) = false := by simpa using hi
+      simp only [List.filterMap_cons, hi', Bool.false_and, Bool.false_eq_true, if_false, List.length_cons, hi] at ih ⊢
+      rw [ih]; omega
+
+/-- the number of start points is the `m2` of the code: `m*m + (m - 1) % 2` (so `vector<XPoint> start(m2)` is filled exactly:
+    the commented-out `assert(h == m2)` holds) -/
+theorem allStarts_length (p0 : XP ℝ) (d3 : ℝ) (m : Nat) (hm : 1 ≤ m) :
+    (allStarts p0 d3 m).length = m * m + (m - 1) % 2 := by
+  unfold allStarts
+  simp only [List.length_cons, List.length_flatMap]
+  have hrow : ∀ i : Int, ((grid m).filterMap fun j => if i == 0 && j == 0 then none
+      else some (XP.add p0 (mk0 (d3 * ofC (i + j) / two) (d3 * ofC (i - j) / two)))).length
+      = m - (if i = 0 then m % 2 else 0) := by
+    intro i; rw [row_length, grid_length, grid_count_zero]
+  simp only [hrow]
+  -- sum over the rows: every row has m entries except the row i = 0 (present iff m is odd), which has m − 1
+  have hsum : ∀ l : List Int, l.Nodup → (l.map fun i : Int => m - (if i = 0 then m % 2 else 0)).sum = l.length * m - l.count 0 * (m % 2) := by
+    intro l
+    induction l with
+    | nil => simp
+    | cons a t ih =>
+      intro hnd
+      obtain ⟨hat, hnt⟩ := List.nodup_cons.mp hnd
+      simp only [List.map_cons, List.sum_cons, List.length_cons]
+      rw [ih hnt]
+      have hc := List.count_le_length (a := (0:Int)) (l := t)
+      have hm2 : m % 2 ≤ 1 := by omega
+      by_cases ha : a = 0
+      · subst ha
+        rw [List.count_cons_self, List.count_eq_zero_of_not_mem hat]
+        simp only [if_true, Nat.zero_mul, Nat.zero_add, Nat.one_mul, Nat.sub_zero, Nat.add_mul]
+        have : m % 2 ≤ m := Nat.mod_le _ _
+        omega
+      · rw [List.count_cons_of_ne ha]
+        simp only [ha, if_false, Nat.sub_zero]
+        have : t.count 0 * (m % 2) ≤ t.length * m := by
+          calc t.count 0 * (m % 2) ≤ t.length * (m % 2) := Nat.mul_le_mul_right _ hc
+            _ ≤ t.length * m := Nat.mul_le_mul_left _ (Nat.mod_le _ _)
+        rw [Nat.add_mul]; omega
+  rw [hsum _ (grid_nodup m), grid_length, grid_count_zero]
+  have h2 : m % 2 * (m % 2) = m % 2 := by
+    rcases Nat.mod_two_eq_zero_or_one m with h | h <;> rw [h]
+  rw [h2]
+  have : m % 2 ≤ m * m := by nlinarith [Nat.mod_le m 2]
+  omega
 /-! ## completeness of `AllInt0` under the kernel contract (kernels that never report coincidence) -/
 
 /-- The contract of `Basic` used by the covering argument.  `I` is the set of (exact) intersections; the kernel never reports
